@@ -672,6 +672,12 @@ def check_estimate(fx, R, cname, f, tag, v9=None):
         elif names_acc == ['sourceMean', 'targetMean'] and all(ca == expected[mn] for (_, mn, ca) in accs) and \
                 all(divs.get(k) in (('.size', 'correspondences'),) for k in ('sourceMean', 'targetMean')):
             R.holds('V2', inst + ':means', 'means over the correspondence list, roles not swapped', fx.rel(f['loc']), 'E-SIB')
+        elif not accs and all(isinstance((decls.get(mn_) or (None, None))[1], tuple) and (decls.get(mn_) or (None, None))[1][0] == 'mean' and (decls.get(mn_) or (None, None))[1][1:] in (('sourcePoints',), ('targetPoints',))
+                              for mn_ in ('sourceMean', 'targetMean')):
+            R.violated('V2', inst + ':means:whole-sets', 'the overload that takes a correspondence list centres on %s and %s, the centroids of the WHOLE point sets, not of the points the list names.  For a list that is '
+                       'a proper subset (or repeats points) the centred pairs are no longer centred: exact data still comes out right, but for noisy correspondences the rotation that maximises trace(R^T C) '
+                       'with that C is not the least-squares optimal motion of the listed pairs (it disagrees with Kabsch / Umeyama on the same pairs)%s' % (
+                           pp_s(decls['sourceMean'][1]), pp_s(decls['targetMean'][1]), ptag), fx.rel(f['loc']), 'E-ALG')
         else:
             verdict = one_pass_invariant(fx, f)
             if verdict is None:
@@ -746,7 +752,8 @@ def reflection_handled(ev, ri, factor_names, product_names, rhs, rhs_x, D, decls
                                'correction is %s - %s' % (pp_s(g), bv[1][0], bv[1][1], bv[1][2], '1e-7 in float, 1e-16 in double', bv[1][3],
                                                           'applied to a proper rotation' if bv[1][3] else 'not applied to a reflection',
                                                           'every result of the %s instantiations has determinant -1 and a translation to match; an absolute tolerance is only right for one scalar type' % bv[1][2]
-                                                          if bv[1][3] else 'the result keeps determinant -1')), e[2]['loc']
+                                                          if bv[1][3] else 'the result keeps determinant -1: a FULL-rank covariance can have a reflection as its orthogonal optimum (nearly coplanar sets whose noise '
+                                                          'exceeds their thickness), so the test may not be tied to the rank')), e[2]['loc']
             sign_ok = True
         pcol, pwhich = negates_last_column(body, product_names, last)
         if pcol is not None:
@@ -799,14 +806,18 @@ def det_test_by_value(g):
     collect(g)
     if not names or len(names) > 2:
         return None
+    uses_rank = contains_call(g, '.rank')
     for (sname, eps) in (('double', 2.0 ** -52), ('float', 2.0 ** -23)):
+      for rank_ in ((3, 2) if uses_rank else (3,)):
         for s1 in (1.0, -1.0):
             for s2 in (1.0, -1.0):
                 for k1 in (-3, 0, 2):
                     for k2 in (-1, 0, 3):
                         vals = [s1 * (1.0 + k1 * eps), s2 * (1.0 + k2 * eps)]
                         env = {n_: v_ for n_, v_ in zip(names, vals)}
+                        env['CARTESIAN_DIM'] = 3
                         S_ = mini.Step(deep_unwrap)
+                        S_.hooks['.rank'] = lambda t, env_, rank_=rank_: rank_          # the covariance of noisy data is full rank; exactly coplanar data gives DIM - 1
                         S_.hooks['.determinant'] = det_hook
                         try:
                             got = bool(S_.ev(g, env))
@@ -818,7 +829,7 @@ def det_test_by_value(g):
                         if len(names) == 1:
                             prod = env[names[0]]
                         if got != (prod < 0):
-                            return (False, ('%.9g' % vals[0], '%.9g' % (vals[1] if len(names) > 1 else vals[0]), sname, got))
+                            return (False, ('%.9g' % vals[0], '%.9g' % (vals[1] if len(names) > 1 else vals[0]), sname + (' with a covariance of rank %d' % rank_ if uses_rank else ''), got))
     return (True, None)
 
 
